@@ -255,13 +255,18 @@ Definition ends_with_dollar (x : str) : bool :=
 
 Inductive cres := CPat (p : pattern) | CInvalid | CUnsupported.
 
+(** ^a|b$ is (^a)|(b$) for regexp: anchors next to a top level alternation are outside the subset
+    ([mk_opt], the encoding of a?, has REps on the right and is no top level | ) *)
+Definition alt_anchor (st en : bool) (r : re) : bool :=
+  (st || en) && match r with RAlt _ REps => false | RAlt _ _ => true | _ => false end.
+
 (** [re_compile ci text]: CInvalid = regexp.Compile fails; CUnsupported = outside the modelled subset *)
 Definition re_compile (ci : bool) (text : str) : cres :=
   let '(st, body) := match text with 94 :: rest => (true, rest) | _ => (false, text) end in
   let '(en, body) := if ends_with_dollar body then (true, removelast body) else (false, body) in
   if st && match body with 42 :: _ | 43 :: _ | 63 :: _ => true | _ => false end then CUnsupported else
   match parse_alt ((S (S (length body))) * 4)%nat body with
-  | POk r [] => CPat (mkPat ci st en r)
+  | POk r [] => if alt_anchor st en r then CUnsupported else CPat (mkPat ci st en r)
   | POk _ (41 :: _) => CInvalid            (* unexpected ) *)
   | POk _ _ => CUnsupported
   | PErr true => CUnsupported
